@@ -110,6 +110,262 @@ fn enc_big(out: &mut Out, case: &str, key: u32, byte: u8, len: usize) {
         "probes":pv,"ptok":tok(&plain),"dtok":tok(&d)}));
 }
 
+// ---------------------------------------------------------------------------------------------
+// round 4: every HET width, extended-table bodies through HetTable::read / BetTable::read,
+// encrypted files through ArchiveBuilder -> Archive::read_file
+// ---------------------------------------------------------------------------------------------
+use std::io::{Cursor, Read, Seek, SeekFrom};
+use wow_mpq::{Archive, BetTable, FormatVersion, HetTable};
+
+const HET_TABLE_KEY: u32 = 0xC3AF_3770; // published value of the key of "(hash table)"
+const BET_TABLE_KEY: u32 = 0xEC83_B3A3; // ... of "(block table)"
+
+fn put32(v: &mut Vec<u8>, x: u32) {
+    v.extend_from_slice(&x.to_le_bytes());
+}
+
+/// Plain body (what follows the 12-byte extended header) of a HET table with n slots and ib index bits.
+fn het_body(n: usize, ib: usize, sparse: bool, rng: &mut Rng) -> Vec<u8> {
+    let idx = (n * ib).div_ceil(8);
+    let mut b = Vec::new();
+    for x in [32 + n + idx, n, n, 8, n * ib, 0, ib, idx] {
+        put32(&mut b, x as u32);
+    }
+    for _ in 0..n + idx {
+        b.push(if sparse && rng.below(4) != 0 { 0x80 } else { rng.byte() });
+    }
+    b
+}
+
+/// Plain body of a BET table: fc entries of es bits, nf flag words, fc 64-bit hashes.
+fn bet_body(fc: usize, es: usize, nf: usize, sparse: bool, rng: &mut Rng) -> Vec<u8> {
+    let ft = (fc * es).div_ceil(8);
+    let total = 76 + 4 * nf + ft + 8 * fc;
+    let q = es / 4;
+    let mut b = Vec::new();
+    for x in [total, fc, 0x10, es, 0, q, 2 * q, 3 * q, es, q, q, q, es - 3 * q, 0, 64 * fc, 0, 64, 8 * fc, nf] {
+        put32(&mut b, x as u32);
+    }
+    for _ in 0..4 * nf + ft + 8 * fc {
+        b.push(if sparse && rng.below(4) != 0 { 0 } else { rng.byte() });
+    }
+    b
+}
+
+fn het_obs(t: &HetTable) -> Vec<u8> {
+    let h = t.header;
+    let mut o = Vec::new();
+    for x in [h.table_size, h.max_file_count, h.hash_table_size, h.hash_entry_size, h.total_index_size, h.index_size_extra, h.index_size, h.block_table_size] {
+        put32(&mut o, x);
+    }
+    o.extend_from_slice(&t.hash_table);
+    o.extend_from_slice(&t.file_indices);
+    o
+}
+
+fn bet_obs(t: &BetTable) -> Vec<u8> {
+    let h = t.header;
+    let mut o = Vec::new();
+    for x in [h.table_size, h.file_count, h.unknown_08, h.table_entry_size, h.bit_index_file_pos, h.bit_index_file_size,
+        h.bit_index_cmp_size, h.bit_index_flag_index, h.bit_index_unknown, h.bit_count_file_pos, h.bit_count_file_size,
+        h.bit_count_cmp_size, h.bit_count_flag_index, h.bit_count_unknown, h.total_bet_hash_size, h.bet_hash_size_extra,
+        h.bet_hash_size, h.bet_hash_array_size, h.flag_count] {
+        put32(&mut o, x);
+    }
+    for f in &t.file_flags {
+        put32(&mut o, *f);
+    }
+    o.extend_from_slice(&t.file_table);
+    for x in &t.bet_hashes {
+        o.extend_from_slice(&x.to_le_bytes());
+    }
+    o
+}
+
+fn tbl_event(case: &str, c: &Value, rng: &mut Rng) -> Value {
+    let which = gs(c, "which");
+    let keycls = gs(c, "keycls");
+    let comp = gb(c, "comp");
+    let key = match keycls {
+        "table" => if which == "het" { HET_TABLE_KEY } else { BET_TABLE_KEY },
+        "zero" => 0,
+        "one" => 1,
+        "ffff" => 0xFFFF_FFFF,
+        _ => rng.next_u32() | 0x100,
+    };
+    let mk = |rng: &mut Rng| if which == "het" {
+        het_body(gi(c, "n") as usize, gi(c, "ib") as usize, comp, rng)
+    } else {
+        bet_body(gi(c, "fc") as usize, gi(c, "es") as usize, gi(c, "nf") as usize, comp, rng)
+    };
+    // body as stored before encryption: plain, or (compressed tables) method byte + zlib stream whose
+    // length has the residue mod 4 the case asks for (the content is varied until it has)
+    let mut plain = mk(rng);
+    let mut stored_body = plain.clone();
+    if comp {
+        let want = gi(c, "cr") as usize;
+        for _ in 0..400 {
+            let z = wow_mpq::compress(&plain, 0x02).unwrap_or_else(|_| plain.clone());
+            if z.len() < plain.len() {
+                stored_body = z;
+                if stored_body.len() % 4 == want {
+                    break;
+                }
+            }
+            plain = mk(rng);
+            stored_body = plain.clone();
+        }
+    }
+    let mut pre = Vec::new();
+    put32(&mut pre, if which == "het" { 0x1A54_4548 } else { 0x1A54_4542 });
+    put32(&mut pre, 1);
+    put32(&mut pre, plain.len() as u32);
+    pre.extend_from_slice(&stored_body);
+    let mut st = pre.clone();
+    ArchiveBuilder::new().encrypt_data(&mut st[12..], key);
+    // the table sits at some offset of a larger file
+    let lead = rng.below(7) as usize;
+    let mut file = rng.bytes(lead);
+    file.extend_from_slice(&st);
+    file.extend_from_slice(&rng.bytes(9));
+    let (res, obs) = match guarded(|| {
+        let mut cur = Cursor::new(&file);
+        if which == "het" {
+            HetTable::read(&mut cur, lead as u64, st.len() as u64, key).map(|t| het_obs(&t))
+        } else {
+            BetTable::read(&mut cur, lead as u64, st.len() as u64, key).map(|t| bet_obs(&t))
+        }
+    }) {
+        Outcome::Done(r) => (res_class(&r), r.unwrap_or_default()),
+        Outcome::Panic(_) => ("panic".to_string(), Vec::new()),
+        Outcome::Hang => ("hang".to_string(), Vec::new()),
+    };
+    json!({"ev":"Tbl","case":case,"which":which,"keycls":keycls,"key":w(key),"comp":comp,"r":stored_body.len() % 4,
+        "pre":pre,"st":st,"plain":plain,"obs":obs,"res":res})
+}
+
+struct FilePlan {
+    name: String,
+    size: usize,
+}
+
+fn fver(v: i64) -> FormatVersion {
+    match v { 1 => FormatVersion::V1, 2 => FormatVersion::V2, 3 => FormatVersion::V3, _ => FormatVersion::V4 }
+}
+fn shape_bs(shape: &str) -> (u16, u32) {
+    if shape == "single" { (3, 4096) } else { (0, 512) }
+}
+
+/// Where the builder puts the first file of an archive of this version / sector size (learnt, not assumed).
+fn probe_pos(sc: &Scratch, ver: i64, bs: u16) -> u32 {
+    let path = sc.file(&format!("probe-{ver}-{bs}.mpq"));
+    ArchiveBuilder::new().version(fver(ver)).block_size(bs)
+        .add_file_data_with_encryption(vec![7u8; 3000], "Probe\\p.bin", 0, true, 0)
+        .build(&path).unwrap_or_else(|e| tool_error(&format!("probe build: {e:?}")));
+    let a = Archive::open(&path).unwrap_or_else(|e| tool_error(&format!("probe open: {e:?}")));
+    let info = a.find_file("Probe\\p.bin").ok().flatten().unwrap_or_else(|| tool_error("probe file missing"));
+    (info.file_pos - a.archive_offset()) as u32
+}
+
+/// Choose name and size so that the cipher unit named by `zero` gets key 0 under the FIX_KEY equation
+/// final = (file_key(name) + pos) ^ size.  Only a search: TLC recomputes the key from what is logged.
+fn plan_file(c: &Value, ci: usize, pos: u32, rng: &mut Rng) -> FilePlan {
+    let (shape, zero, rem) = (gs(c, "shape"), gs(c, "zero"), gi(c, "rem") as u32);
+    let (_, ss) = shape_bs(shape);
+    let single = shape == "single";
+    let fits = |size: u32| size >= 1 && size % 4 == rem && if single { size <= ss } else { size > ss && size <= 12 * ss };
+    if !gb(c, "fix") || zero == "none" {
+        let mut size = if single { rng.range(1, ss as u64 - 4) } else { rng.range(ss as u64 + 1, 12 * ss as u64 - 4) } as u32;
+        while size % 4 != rem {
+            size += 1;
+        }
+        return FilePlan { name: format!("Data\\c{ci}/Sub\\n{}.bin", rng.below(100000)), size: size as usize };
+    }
+    let mut name = format!("Z{ci}\\aaaaaaaa.q").into_bytes();
+    let at = name.len() - 10;
+    let n0 = rng.next_u32() as u64; // the search starts somewhere else for every (seed, case)
+    for i in 0u64..(1u64 << 32) {
+        let n = (n0 + i) & 0xFFFF_FFFF;
+        for d in 0..8 {
+            name[at + d] = b'a' + ((n >> (4 * d)) & 15) as u8;
+        }
+        let s = std::str::from_utf8(&name).unwrap();
+        let x = file_key(s).wrapping_add(pos);
+        let size = match zero {
+            "s0" => Some(x),
+            "ot" => Some(x ^ 1),
+            "s1" => Some(!x),
+            _ => (3u32..=12).map(|ns| (ns, x ^ 0u32.wrapping_sub(ns - 1))).find(|&(ns, sz)| fits(sz) && sz.div_ceil(ss) == ns).map(|p| p.1),
+        };
+        if let Some(sz) = size {
+            if fits(sz) {
+                return FilePlan { name: s.to_string(), size: sz as usize };
+            }
+        }
+    }
+    tool_error("no name found for the zero-unit class")
+}
+
+fn encfile_event(case: &str, c: &Value, plan: &FilePlan, sc: &Scratch, rng: &mut Rng) -> Value {
+    let (shape, zero, comp, ver, fix) = (gs(c, "shape"), gs(c, "zero"), gi(c, "comp") as u8, gi(c, "ver"), gb(c, "fix"));
+    let (bs, ss) = shape_bs(shape);
+    let raw = comp == 0;
+    let plain = if raw { rng.bytes(plan.size) } else { gen_content(if rng.chance(1, 2) { "text" } else { "mixed" }, plan.size, rng) };
+    let path = sc.file("encfile.mpq");
+    let _ = std::fs::remove_file(&path);
+    let mut ev = json!({"ev":"EncFile","case":case,"zero":zero,"shape":shape,"ver":ver,"fix":fix,"comp":comp,"raw":raw,
+        "b":plan.name.as_bytes(),"pos":w(0),"size":plan.size,"ss":ss,"enc":false,"fixf":false,"single":false,
+        "p":if raw { plain.clone() } else { Vec::new() },"st":Vec::<u8>::new(),"stlen":0,"res":"","ptok":tok(&plain),"gtok":"","glen":0});
+    let built = guarded(|| {
+        ArchiveBuilder::new().version(fver(ver)).block_size(bs)
+            .add_file_data_with_encryption(plain.clone(), &plan.name, comp, fix, 0)
+            .build(&path)
+    });
+    match built {
+        Outcome::Done(Ok(())) => {}
+        Outcome::Done(Err(e)) => { ev["res"] = json!(format!("build:err:{}", variant_name(&e))); return ev; }
+        _ => { ev["res"] = json!("build:panic"); return ev; }
+    }
+    let opened = guarded(|| Archive::open(&path));
+    let mut a = match opened {
+        Outcome::Done(Ok(a)) => a,
+        Outcome::Done(Err(e)) => { ev["res"] = json!(format!("open:err:{}", variant_name(&e))); return ev; }
+        _ => { ev["res"] = json!("open:panic"); return ev; }
+    };
+    let info = match a.find_file(&plan.name) {
+        Ok(Some(i)) => i,
+        _ => { ev["res"] = json!("notfound"); return ev; }
+    };
+    let rel = (info.file_pos - a.archive_offset()) as u32;
+    ev["pos"] = w(rel);
+    ev["enc"] = json!(info.is_encrypted());
+    ev["fixf"] = json!(info.has_fix_key());
+    ev["single"] = json!(info.is_single_unit());
+    ev["stlen"] = json!(info.compressed_size);
+    // the stored image (raw sectors: all of it; otherwise its sector offset table)
+    let nsect = plan.size.div_ceil(ss as usize);
+    let want = if raw { info.compressed_size as usize } else if plan.size > ss as usize { 4 * (nsect + 1) } else { 0 };
+    let mut st = vec![0u8; want.min(1 << 20)];
+    if let Ok(mut f) = std::fs::File::open(&path) {
+        let _ = f.seek(SeekFrom::Start(info.file_pos));
+        let _ = f.read_exact(&mut st);
+    }
+    ev["st"] = json!(st);
+    let name = plan.name.clone();
+    match guarded(move || { let r = a.read_file(&name); r }) {
+        Outcome::Done(r) => {
+            ev["res"] = json!(res_class(&r));
+            if let Ok(g) = r {
+                ev["gtok"] = json!(tok(&g));
+                ev["glen"] = json!(g.len());
+            }
+        }
+        Outcome::Panic(_) => ev["res"] = json!("panic"),
+        Outcome::Hang => ev["res"] = json!("hang"),
+    }
+    ev
+}
+
 fn main() {
     let a = args();
     install_quiet_panic_hook();
@@ -117,6 +373,25 @@ fn main() {
     let trace = Trace::create(&a.trace);
     let mut out = Out { t: &trace, n: 0 };
     let seed = seed();
+    // round 4 pre-pass: the name searches of the encrypted-file cases run in parallel
+    let sc = Scratch::new("c04");
+    let mut probes: std::collections::HashMap<(i64, u16), u32> = std::collections::HashMap::new();
+    for c in cases.iter().filter(|c| gs(c, "kind") == "encfile") {
+        let k = (gi(c, "ver"), shape_bs(gs(c, "shape")).0);
+        if !probes.contains_key(&k) {
+            let p = probe_pos(&sc, k.0, k.1);
+            probes.insert(k, p);
+        }
+    }
+    let plans: Vec<std::sync::Mutex<Option<FilePlan>>> = cases.iter().map(|_| std::sync::Mutex::new(None)).collect();
+    par_for(cases.len(), 4, |ci| {
+        let c = &cases[ci];
+        if gs(c, "kind") == "encfile" {
+            let mut rng = Rng::derive(seed, &format!("{ci}:plan"));
+            let pos = probes[&(gi(c, "ver"), shape_bs(gs(c, "shape")).0)];
+            *plans[ci].lock().unwrap() = Some(plan_file(c, ci, pos, &mut rng));
+        }
+    });
     for (ci, c) in cases.iter().enumerate() {
         let kind = gs(c, "kind");
         let case = format!("{ci}:{kind}");
@@ -288,6 +563,31 @@ fn main() {
                         }
                     }
                 }
+            }
+            "het_all" => {
+                // every table width: one event per spelling carrying the pair for all widths
+                let widths: Vec<u32> = ga(c, "widths").iter().map(|x| x.as_u64().unwrap() as u32).collect();
+                let alphabet: Vec<char> = "abcxyzABCXYZ0189\\/._-() é".chars().collect();
+                for i in 0..gi(c, "count") {
+                    let l = match i { 0 => 0, 1 => 1, 2 => 12, 3 => 13, _ => rng.range(2, 40) };
+                    let s: String = (0..l).map(|_| *rng.pick(&alphabet)).collect();
+                    for sp in [s.clone(), s.to_ascii_uppercase(), s.to_ascii_lowercase().replace('\\', "/")] {
+                        let r: Vec<Value> = widths.iter().map(|&bits| {
+                            let (file, name1) = het_hash(&sp, bits);
+                            json!([bits, limbs64(file), name1])
+                        }).collect();
+                        out.ev(json!({"ev":"HetW","case":case,"b":sp.as_bytes(),"r":r}));
+                    }
+                }
+            }
+            "tbl" => {
+                let e = tbl_event(&case, c, &mut rng);
+                out.ev(e);
+            }
+            "encfile" => {
+                let plan = plans[ci].lock().unwrap().take().unwrap_or_else(|| tool_error("no plan"));
+                let e = encfile_event(&case, c, &plan, &sc, &mut rng);
+                out.ev(e);
             }
             other => tool_error(&format!("unknown case kind {other}")),
         }
